@@ -447,7 +447,7 @@ func c12Run(ops []c12Op) ([]c12Step, []int) {
 }
 
 // ---- generation ----
-var c12Names = []string{"a", "b", "m", "x", "a.b", "", "T", "int64", "U", "n"}
+var c12Names = []string{"a", "b", "m", "x", "a.b", "", "T", "int64", "U", "n", ".a", ".", "a.", "..a", "a..b"}
 
 func c12Gen(rnd *Rand, n int) []c12Op {
 	var ops []c12Op
@@ -474,7 +474,7 @@ func c12Gen(rnd *Rand, n int) []c12Op {
 		return v[rnd.Intn(len(v))]
 	}
 	name := func() string {
-		w := []int{6, 6, 6, 3, 1, 1, 2, 2, 1, 2}
+		w := []int{18, 18, 18, 9, 3, 3, 6, 6, 3, 6, 1, 1, 1, 1, 1}
 		return c12Names[rnd.Pick(w)]
 	}
 	val := func() *c12Val {
@@ -680,6 +680,10 @@ func c12Directed() [][]c12Op {
 		{{K: "NewRoot"}, {K: "NewModule", E: 0, S: "a"}, {K: "NewEnv", E: 0}, {K: "Define", E: 2, S: "a", V: tok(1)},
 			{K: "Path", E: 2, P: []string{"a"}}},
 		{{K: "NewRoot"}, {K: "NewModule", E: 0, S: "a.b"}, {K: "Symbols", E: 0}},
+		// names containing '.' are rejected wherever the dot stands, by every defining call, and nothing changes
+		{{K: "NewRoot"}, {K: "NewEnv", E: 0}, {K: "Define", E: 1, S: ".a", V: tok(1)}, {K: "Define", E: 1, S: ".", V: tok(2)}, {K: "Define", E: 1, S: "a.", V: tok(3)},
+			{K: "DefineGlobal", E: 1, S: "..a", V: tok(4)}, {K: "NewModule", E: 1, S: ".m"}, {K: "DefineType", E: 1, S: ".T", T: 2}, {K: "DefineGlobalType", E: 1, S: "T.", T: 3},
+			{K: "Symbols", E: 1}, {K: "Symbols", E: 0}, {K: "TypeSymbols", E: 1}, {K: "Get", E: 1, S: ".a"}, {K: "Path", E: 1, P: []string{".m"}}},
 		// a binding that holds a nil *env.Env has the type of a module and is none: a path through it is an error
 		{{K: "NewRoot"}, {K: "Define", E: 0, S: "m", V: tok(c12NilEnvTok)}, {K: "Path", E: 0, P: []string{"m"}}, {K: "Path", E: 0, P: []string{"m", "a"}}, {K: "Get", E: 0, S: "m"}},
 		{{K: "NewRoot"}, {K: "NewModule", E: 0, S: "a"}, {K: "Define", E: 1, S: "m", V: tok(c12NilEnvTok)}, {K: "Path", E: 0, P: []string{"a", "m"}},
